@@ -12,6 +12,8 @@ from props.streamcommon import limbs
 
 def cost_a2(rec):
     e = rec["ev"][0]
+    if e["op"] != "argon2":
+        return 1 + (20 if e["op"] == "argon2_built" else 0.05 * len(rec["ev"]))
     m, p, t, n = e["m"][0], max(1, e["p"][0]), e["t"][0], e["n"]
     mp = 4 * p * (m // (4 * p))
     return 5 + 0.8 * 2 * p + 0.07 * mp * t * (1.2 if e["type"] else 1.0) + 0.03 * (n // 32 + 1)
@@ -56,13 +58,73 @@ def run(R):
         add(2, 0x13, 1, 8, 1, 160)
         add(1 if R.seed % 2 else 2, 0x13, 1, 520, 1, 32, label="segment length 130: second address block")
     hs = [{"id": R.next_id(), "cls": "fn", "ev": [e]} for e in evs]
+    # ---- the parameter builder as an object machine: every setter sequence (any order, repeated) printed by TLC from Argon2Params.tla;
+    # the derived geometry is read back through the hook for all of them, tags are computed with the built parameters for a part
+    R.model_check("Argon2Params", "MC_Argon2Params.cfg", need_actions=["SetM", "SetP", "SetT"], workers=4)
+    from props import hashcommon as hc
+    cfg = hc.write_cfg(R, "GEN_Argon2Params", {"Ms": hc.tla_set([40, 64, 100, 107]), "Ps": hc.tla_set([1, 3, 5]), "MaxOps": 3 if not thorough else 4, "Gen": "TRUE"}, ["InvGeometry", "Emit"])
+    seqs = R.generate("Argon2Params", cfg)
+    sset = lambda q: [{"k": x["k"], "v": limbs(x["v"])} for x in q]
+    ntag = 0
+    for j, q in enumerate(seqs):
+        hs.append({"id": R.next_id(), "cls": "fn", "ev": [{"op": "argon2_geometry", "setters": sset(q)}]})
+        R.count(("geometry", tuple((x["k"], x["v"]) for x in q)))
+        # tags: sequences with a repeated setter (the interesting ones), a seeded part of them
+        kinds = [x["k"] for x in q]
+        if len(set(kinds)) < len(kinds) and ntag < (40 if thorough else 10) and R.rng.random() < 0.2:
+            ntag += 1
+            hs.append({"id": R.next_id(), "cls": "fn", "ev": [{"op": "argon2_built", "type": j % 3, "setters": sset(q), "n": 32, "pw": rb("bpw", 9), "salt": rb("bsalt", 16),
+                                                              "key": [], "aad": [], "t": limbs(1), "m": limbs(40), "p": limbs(1)}]})
+            R.count(("built", tuple((x["k"], x["v"]) for x in q)))
+    # refused setters inside a sequence: the first refusal names the error
+    for q in ([("m", 64), ("p", 0)], [("p", 1 << 24), ("t", 0)], [("t", 0), ("p", 0)], [("v", 0x11)], [("p", 2), ("v", 0x13), ("t", 2), ("v", 0x14)]):
+        hs.append({"id": R.next_id(), "cls": "fn", "ev": [{"op": "argon2_geometry", "setters": [{"k": k, "v": limbs(v)} for k, v in q]}]})
+        R.count(("refused", tuple(q)))
+    # ---- the reference-index computation (RFC 9106 3.4.2) through the hook, where whole tags cannot reach: large geometries (the hook
+    # allocates nothing), every position case (first pass / later passes, first slice, same lane / other lane, index 0), and J1 values
+    # for which each of the two truncations of the mapping matters
+    def tight_j1(w, rng, want):
+        out = []
+        for _ in range(400000):
+            j = rng.getrandbits(32)
+            x = (j * j) >> 32
+            if (w * x) >> 32 != (w * j * j) >> 64:        # truncating once instead of twice would give another block
+                out.append(j)
+                if len(out) >= want:
+                    break
+        return out
+    nidx = 0
+    for (m, p) in ((1 << 29, 1), ((1 << 28) + 12345, 3), (1 << 20, 4), (4096, 1), (40, 1), (107, 5)):
+        lane = 4 * (m // (4 * p))
+        sl = lane // 4
+        cases = [(0, 0, 2, 1), (0, 0, sl - 1, 1), (0, 1, 0, 1), (0, 1, 0, 0), (0, 2, 1, 0), (0, 3, sl - 1, 1), (1, 0, 0, 1), (1, 0, 0, 0), (1, 1, 1, 0), (1, 2, sl - 1, 1),
+                 (1, 3, 0, 0), (1, 3, 5 % sl, 1), (2, 3, sl - 1, 0)]
+        for (r, sli, i, same) in cases:
+            if p == 1 and same == 0:
+                continue
+            if r == 0 and sli == 0:
+                w = i - 1
+            elif r == 0:
+                w = sli * sl + i - 1 if same else (sli * sl - 1 if i == 0 else sli * sl)
+            else:
+                w = lane - sl + i - 1 if same else (lane - sl - 1 if i == 0 else lane - sl)
+            if w < 1:
+                continue
+            js = [0, 1, 0xffff, 0x10000, 0x7fffffff, 0x80000000, 0xffffffff, R.rng.getrandbits(32)] + tight_j1(w, R.rng, 3 if not thorough else 12)
+            ev = [{"op": "argon2_index_alpha", "setters": [{"k": "m", "v": limbs(m)}, {"k": "p", "v": limbs(p)}], "pass": r, "slice": sli, "index": i, "same": same,
+                   "j1": [j & 0xffff, j >> 16]} for j in js]
+            hs.append({"id": R.next_id(), "cls": "fn", "ev": ev})
+            nidx += len(ev)
+            R.count(("index_alpha", m, p, r, sli, i, same))
+    R.extra["index_alpha_evaluations"] = nidx
+    R.extra["builder_sequences"] = len(seqs)
     R.rule = ("one argon2 call per event over (type d/i/id, version 0x10/0x13, t, p, m incl. values not divisible by 4p, tag length crossing 64, pw/salt/key/aad lengths incl. empty, "
               "argon2::<T> vs argon2_at) + the RFC 9106 section 5 parameter set" + ("; thorough adds t<=4, p<=5, segment length 129, tag lengths to 300, m=2048" if thorough else "") +
               "; distinct = full parameter tuple; all non-trivial")
-    res = R.conform("TraceKdf", hs, cost=cost_a2, describe=lambda r, v: {"cls": "fn", "op": "argon2", "type": r["ev"][0]["type"], "version": r["ev"][0]["version"]},
+    res = R.conform("TraceKdf", hs, cost=cost_a2, describe=lambda r, v: {"cls": "fn", "op": r["ev"][0]["op"], "type": r["ev"][0].get("type"), "version": r["ev"][0].get("version")},
                     timeout=5000 if thorough else 1200, label="TraceKdf.argon2")
-    for r in res["records"][:2] + res["records"][-3:]:
+    for r in [x for x in res["records"] if x["ev"][0]["op"] == "argon2"][:2] + [x for x in res["records"] if x["ev"][0]["op"] == "argon2"][-3:]:
         e = r["ev"][0]
         R.sample({"type": e["type"], "version": e["version"], "t": e["t"][0], "m": e["m"][0], "p": e["p"][0], "tag_len": e["n"], "api": e["api"], "keylen": len(e["key"]),
                   "aadlen": len(e["aad"]), "tag": vlib.hexs(e["out"]["v"])[:32]})
-    R.notes.append("no object machine applies: Argon2 has no state across calls; the position machine (pass, slice, lane, index) is part of the functional module Argon2.tla")
+    R.notes.append("Argon2 has no state across calls; the object machine of this property is the parameter builder (Argon2Params.tla); the position machine (pass, slice, lane, index) is part of Argon2.tla")
